@@ -139,7 +139,7 @@ let () =
   let dir_limit = nmin (nmin sb.sb_id_start sb.sb_frag_start) sb.sb_export_start in
   let rec nat_of_int i = if i = 0 then O else S (nat_of_int (i - 1)) in
   let rec int_of_nat = function O -> 0 | S n -> 1 + int_of_nat n in
-  let xr = xattr_load img sb in
+  let xr = ref (xattr_load img sb) in
   let idt = id_table_read uncompress img fsz sb in
   let rs0 = [| mr_create sb.sb_inode_start sb.sb_dir_start; mr_create sb.sb_dir_start dir_limit;
                mr_create sb.sb_id_start sb.sb_bytes_used; mr_create sb.sb_id_start sb.sb_bytes_used |] in
@@ -152,6 +152,25 @@ let () =
     rs := (fun n -> let i = int_of_nat n in if i < 4 then a.(i) else a.(0));
     match v with Done r -> Some r | Unpositioned -> unpositioned := true; None in
   let dslots : rdstate option array = Array.make 4 None in
+  (* the fine-grained xattr reader API (XFineModel.xf_step): the calls continue from the reader's two cursors,
+     objects 2 (idrd) and 3 (kvrd) of the same family [rs] the one-shot clients run on *)
+  let set_rs rs' =
+    let a = Array.init 4 (fun i -> rs' (nat_of_int i)) in
+    rs := (fun n -> let i = int_of_nat n in if i < 4 then a.(i) else a.(0)) in
+  let xstep (x : xreader) (o : xop) : xans =
+    let (ans, s') = xf_step uncompress img fsz sb { xf_xr = x; xf_rs = !rs } o in
+    set_rs s'.xf_rs;
+    (match o, ans with
+     | XLoad, ALoad (Ok _) -> xr := Ok s'.xf_xr
+     | XLoad, ALoad (Err e) -> xr := Err e
+     | XLoad, _ -> xr := Crash
+     | _ -> ());
+    ans in
+  (* caller-owned values and the bookkeeping of h_reader.c (xdslot, xkslot, xpre) *)
+  let xdslots : (n * n * n) option array = Array.make 4 None in
+  let xkslots : n option array = Array.make 2 None in
+  let nxpre = ref 0 and xpre_over = ref false in
+  let xpre_max = 48 in
   let dec l = String.concat "," (List.map string_of_n l) in
   let dump_inode (i : inode) =
     match i.i_base with
@@ -332,7 +351,12 @@ let () =
         | "X" | "XD" | "XK" ->
           let idx = n_of_string (arg 1) in
           let null_unsafe x = (not x.xr_has_table) && idx = N0 in
-          (match xr with
+          (* X and XK are cursor-defining calls of the fine-grained API: same bookkeeping as h_reader.c:xcursor_op *)
+          let positioned = ref false in
+          let book () =
+            if !positioned then begin nxpre := 0; xpre_over := false end;
+            if !nxpre < xpre_max then incr nxpre else xpre_over := true in
+          (match !xr with
            | Ok x ->
              if op = "XD" then begin
                match runc (xattr_desc_client x idx) with
@@ -348,7 +372,8 @@ let () =
                    List.iter (fun (k, v) ->
                      h := hash_add !h (cstr k); h := hash_add !h v;
                      h := hash_add !h (le_bytes (n_of_int (List.length v)) 8)) l;
-                   add (Printf.sprintf " 0 n=%d h=%08x" (List.length l) !h)
+                   add (Printf.sprintf " 0 n=%d h=%08x" (List.length l) !h);
+                   positioned := x.xr_has_table && idx <> n_of_string "4294967295"
                  | Some e -> add (" " ^ status_str e)
              end else begin
                if idx = n_of_string "4294967295" then add " none"
@@ -372,6 +397,7 @@ let () =
                     | None -> add " UNPOSITIONED"
                     | Some None -> ()
                     | Some (Some (((acc, stopped), n), last)) ->
+                      positioned := x.xr_has_table;
                       let h = ref hash_init in
                       List.iter (fun (key, v) ->
                         h := hash_add !h (cstr key);
@@ -379,7 +405,135 @@ let () =
                       if stopped then add " stop-after-key";
                       add (Printf.sprintf " n=%s last=%s h=%08x" (string_of_n n) (status_str last) !h))
                  | Some e -> add (" d=" ^ status_str e)
+             end;
+             if op <> "XD" then book ()
+           | e -> add (" noxattr=" ^ status_str e))
+        | "XA" ->
+          let idx = n_of_string (arg 1) in
+          (match !xr with
+           | Ok x ->
+             let positioned = ref false in
+             if idx = n_of_string "4294967295" then add " none"
+             else if (not x.xr_has_table) && idx = N0 then add " skip-xattr-null"
+             else begin
+               (match xstep x (XGet idx) with
+                | AGet (Ok ((a, c), _)) ->
+                  add " d=0";
+                  let pair_hash h k v = hash_add (hash_add (hash_add h (cstr k)) v) (le_bytes (n_of_int (List.length v)) 8) in
+                  let cnt = int_of_n c in
+                  (* way 1: read_all *)
+                  let (r1, n1, h1) = (match xstep x (XAll idx) with
+                    | AAll (Ok l) -> ("0", List.length l, List.fold_left (fun h (k, v) -> pair_hash h k v) hash_init l)
+                    | AAll e -> (status_str e, 0, hash_init)
+                    | _ -> ("?", 0, hash_init)) in
+                  (* way 2: seek_kv + (read_key, read_value)* *)
+                  let seek () = (match xstep x (XSeek (a, c)) with ASeek r -> status_str r | _ -> "?") in
+                  let r2 = ref (seek ()) and n2 = ref 0 and h2 = ref hash_init and i = ref 0 in
+                  while !r2 = "0" && !i < cnt do
+                    (match xstep x XKey with
+                     | AKey (Ok (t, k)) ->
+                       (match xstep x (XVal t) with
+                        | AVal (Ok v) -> h2 := pair_hash !h2 k v; incr n2
+                        | AVal e -> r2 := status_str e
+                        | _ -> r2 := "?")
+                     | AKey e -> r2 := status_str e
+                     | _ -> r2 := "?");
+                    incr i
+                  done;
+                  (* way 3: seek_kv + read* *)
+                  let seek3 = seek () in
+                  let r3 = ref seek3 and n3 = ref 0 and h3 = ref hash_init in
+                  i := 0;
+                  while !r3 = "0" && !i < cnt do
+                    (match xstep x XPair with
+                     | APair (Ok (k, v)) -> h3 := pair_hash !h3 k v; incr n3
+                     | APair e -> r3 := status_str e
+                     | _ -> r3 := "?");
+                    incr i
+                  done;
+                  add (Printf.sprintf " r=%s,%s,%s" r1 !r2 !r3);
+                  if r1 = "0" && !r2 = "0" && !r3 = "0" then begin
+                    if h1 = !h2 && !h2 = !h3 && n1 = !n2 && !n2 = !n3 then add (Printf.sprintf " AGREE n=%d h=%08x" n1 h1)
+                    else add (Printf.sprintf " DISAGREE n=%d,%d,%d h=%08x,%08x,%08x" n1 !n2 !n3 h1 !h2 !h3)
+                  end else if r1 <> "0" && !r2 <> "0" && !r3 <> "0" then add (Printf.sprintf " FAIL n=%d,%d" !n2 !n3)
+                  else add (Printf.sprintf " DISAGREE-STATUS n=%d,%d" !n2 !n3);
+                  positioned := seek3 = "0" && x.xr_has_table
+                | AGet e -> add (" d=" ^ status_str e)
+                | _ -> add " ?")
+             end;
+             if !positioned then begin nxpre := 0; xpre_over := false end;
+             if !nxpre < xpre_max then incr nxpre else xpre_over := true
+           | e -> add (" noxattr=" ^ status_str e))
+        | "XG" ->
+          let sl = int_of_string (arg 1) mod 4 in
+          (match !xr with
+           | Ok x ->
+             xdslots.(sl) <- None;
+             (match xstep x (XGet (n_of_string (arg 2))) with
+              | AGet (Ok ((a, c), sz)) ->
+                add (Printf.sprintf " 0 x=%s c=%s s=%s" (string_of_n a) (string_of_n c) (string_of_n sz));
+                xdslots.(sl) <- Some (a, c, sz)
+              | AGet e -> add (" " ^ status_str e)
+              | _ -> add " ?")
+           | e -> add (" noxattr=" ^ status_str e))
+        | "XGR" ->
+          let sl = int_of_string (arg 1) mod 4 in
+          let m32 v = snd (N.div_eucl v (n_of_string "4294967296")) in
+          xdslots.(sl) <- Some (n_of_string (arg 2), m32 (n_of_string (arg 3)), m32 (n_of_string (arg 4)));
+          add " ok"
+        | "XS" | "XRK" | "XRV" | "XRP" ->
+          let ks = int_of_string (arg 1) mod 2 in
+          let sl = int_of_string (arg 1) mod 4 in
+          let unset = (op = "XS" && xdslots.(sl) = None) || (op = "XRV" && xkslots.(ks) = None) in
+          if unset then add " -"
+          else (match !xr with
+           | Ok x ->
+             let reads = op <> "XS" in
+             if reads && not x.xr_has_table then add " skip-xattr-null"
+             else if reads && !xpre_over then add " -"
+             else begin
+               let positioned = ref false in
+               (match op with
+                | "XS" ->
+                  let (a, c, _) = (match xdslots.(sl) with Some d -> d | None -> (N0, N0, N0)) in
+                  (match xstep x (XSeek (a, c)) with
+                   | ASeek r -> add (" s=" ^ status_str r); positioned := (r = Ok ()) && x.xr_has_table
+                   | _ -> add " ?")
+                | "XRK" ->
+                  (match xstep x XKey with
+                   | AKey (Ok (t, key)) ->
+                     add (Printf.sprintf " r=0 t=%s" (string_of_n t)); add (put_bytes "k" key);
+                     xkslots.(ks) <- Some t
+                   | AKey e -> add (" r=" ^ status_str e)
+                   | _ -> add " ?")
+                | "XRV" ->
+                  let t = (match xkslots.(ks) with Some t -> t | None -> N0) in
+                  (match xstep x (XVal t) with
+                   | AVal (Ok v) -> add " r=0"; add (put_bytes "v" v)
+                   | AVal e -> add (" r=" ^ status_str e)
+                   | _ -> add " ?")
+                | _ ->
+                  (match xstep x XPair with
+                   | APair (Ok (k, v)) ->
+                     let h = hash_add (hash_add (hash_add hash_init (cstr k)) v) (le_bytes (n_of_int (List.length v)) 8) in
+                     add (Printf.sprintf " r=0 n=1 h=%08x" h)
+                   | APair e -> add (" r=" ^ status_str e)
+                   | _ -> add " ?"));
+               if !positioned then begin nxpre := 0; xpre_over := false end;
+               if !nxpre < xpre_max then incr nxpre else xpre_over := true
              end
+           | e -> add (" noxattr=" ^ status_str e))
+        | "XL" ->
+          (match !xr with
+           | Ok x ->
+             (match xstep x XLoad with
+              | ALoad r -> add (" " ^ status_str r)
+              | _ -> add " ?");
+             nxpre := 0; xpre_over := false
+           | e -> add (" noxattr=" ^ status_str e))
+        | "XC" ->
+          (match !xr with
+           | Ok x -> ignore (xstep x XCopy); add " ok"
            | e -> add (" noxattr=" ^ status_str e))
         | "U" ->
           (match idt with
